@@ -40,7 +40,8 @@ table = "| seed | files touched | mechanism / what it needs (from the seed's own
 n = len(rows)
 rep = sum(1 for r in rows if 'not reported' not in r and 'not run' not in r)
 own = sum(1 for r in rows if '(not by' not in r and 'not reported' not in r and 'not run' not in r)
-head = f"{n} seeded changes; {rep} reported by at least one check, {own} of them by the quick check of the very property the change was written against.\n\n"
+ownq = sum(1 for r in rows if re.search(r'\| C\d\d quick', r))
+head = f"{n} seeded changes; {rep} reported by at least one check, {own} of them by the check of the very property the change was written against ({ownq} by its quick tier, {own - ownq} by its thorough tier only).\n\n"
 p = f'{V}/DESIGN.md'
 s = open(p).read()
 a, b = '<!-- DETECTION-TABLE-BEGIN -->', '<!-- DETECTION-TABLE-END -->'
